@@ -46,6 +46,45 @@ def build(spec):
     return det
 
 
+_SPECIAL = {"nan": float("nan"), "inf": float("inf"), "-inf": float("-inf"), "-0.0": -0.0}
+
+
+def _values(v):
+    """numpy array of one variable of a tree spec: {"dtype", "shape", "vals"} (vals are exact: small integers, dyadic
+    floats, the strings nan/inf/-inf/-0.0, [re, im] pairs, strings, ns since the epoch)."""
+    dt, vals = v.get("dtype", "float64"), v["vals"]
+    if dt.startswith("complex"):
+        arr = np.array([complex(_SPECIAL.get(a, a), _SPECIAL.get(b, b)) for a, b in vals], dtype=dt)
+    elif dt.startswith("datetime64") or dt.startswith("timedelta64"):
+        arr = np.array(vals, dtype="int64").astype(dt.split("[")[0] + "[ns]").astype(dt)
+    elif dt.startswith("float"):
+        arr = np.array([_SPECIAL.get(x, x) for x in vals], dtype=dt)
+    elif dt == "bool":
+        arr = np.array([bool(x) for x in vals], dtype=bool)
+    else:
+        arr = np.array(vals, dtype=dt)
+    return arr.reshape(tuple(v["shape"]))
+
+
+def _dataset(g):
+    import xarray as xr
+
+    mk = lambda v: (tuple(v["dims"]), _values(v), dict(v.get("attrs") or {}))  # noqa: E731
+    return xr.Dataset({v["name"]: mk(v) for v in g.get("vars", [])},
+                      coords={v["name"]: mk(v) for v in g.get("coords", [])}, attrs=dict(g.get("attrs") or {}))
+
+
+def fill_tree(tree, spec):
+    """Graft the groups of a tree spec into an existing xr.DataTree through its public mapping interface (parents
+    before children, so that no assignment replaces an already built sub-tree)."""
+    import xarray as xr
+
+    if spec.get("root"):
+        tree.dataset = _dataset(spec["root"])
+    for g in sorted(spec.get("groups", []), key=lambda g: g["path"].count("/")):
+        tree[g["path"]] = xr.DataTree(_dataset(g))
+
+
 def fill(det, init, rows, cols):
     import xarray as xr
 
@@ -77,7 +116,7 @@ def fill(det, init, rows, cols):
             det.charge.remove_from_frame([int(det.charge.frame.index[fr["remove"] % n])])
     sc = init.get("scene")
     if sc is not None:
-        for s in sc["sources"]:
+        for s in sc.get("sources", []):
             nref, wl = s["nref"], [float(x) for x in s["wl"]]
             ds = xr.Dataset(
                 {"x": ("ref", _f(s["x"], (nref,))), "y": ("ref", _f(s["y"], (nref,))),
@@ -86,16 +125,23 @@ def fill(det, init, rows, cols):
                 coords={"ref": list(range(nref)), "wavelength": wl},
                 attrs={"right_ascension": "56.75 deg", "declination": "24.5 deg", "fov_radius": "0.5 deg"})
             det.scene.add_source(ds)
+        if sc.get("tree"):
+            fill_tree(det.scene.data, sc["tree"])
     da = init.get("data")
     if da is not None:
-        for node in da["nodes"]:
+        if da.get("tree"):
+            fill_tree(det.data, da["tree"])
+        for node in da.get("nodes", []):
             n = len(node["vals"])
             det.data[node["path"]] = xr.DataTree(xr.Dataset({node.get("var", "v"): ("k", _f(node["vals"], (n,)))},
                                                             coords={"k": list(range(n))}))
 
 
-def _exc(ex):
-    return {"raise": type(ex).__name__, "msg": str(ex)[:200]}
+def _exc(ex, stage=None):
+    out = {"raise": type(ex).__name__, "msg": str(ex)[:200]}
+    if stage:
+        out["stage"] = stage
+    return out
 
 
 _N = [0]
@@ -122,29 +168,33 @@ def handle(p):
     if route == "dict":
         # to_dict -> [the in-memory conversion of processed-data Datasets that every backend performs before writing]
         # -> from_dict.  No file library involved: isolates pyxel's own key handling.
+        stage = "save"
         try:
             dct = det.to_dict()
             out["orig"] = P.canon_detector(det)
             dd = dct["data"].get("data")
             if dd is not None:
                 dct["data"]["data"] = {k: (v.to_dict() if hasattr(v, "data_vars") else v) for k, v in dd.items()}
+            stage = "load"
             back = Detector.from_dict(dct)
             out["back"] = P.canon_detector(back)
         except Exception as ex:  # noqa: BLE001
             out.setdefault("orig", P.canon_detector(det))
-            out["back"] = _exc(ex)
+            out["back"] = _exc(ex, stage)
         return out
     if route == "asdf":
         fn = _fname()
+        stage = "save"
         try:
             getattr(det, p.get("save", "save"))(fn)
             out["orig"] = P.canon_detector(det)
             loader = p.get("load", "load")
+            stage = "load"
             back = getattr(Detector, loader)(fn) if loader != "class_load" else type(det).load(fn)
             out["back"] = P.canon_detector(back)
         except Exception as ex:  # noqa: BLE001
             out.setdefault("orig", P.canon_detector(det))
-            out["back"] = _exc(ex)
+            out["back"] = _exc(ex, stage)
         finally:
             if os.path.exists(fn):
                 os.unlink(fn)
